@@ -29,15 +29,15 @@ constexpr auto rend(Container const& c) -> decltype(c.rend())
 template <typename T, size_t N>
 constexpr auto rend(T (&array)[N]) -> reverse_iterator<T*>
 {
-    return reverse_iterator<T*>(begin(array));
+    return reverse_iterator<T*>(etl::begin(array));
 }
 
 /// Returns an iterator to the reverse-end of the given container.
 /// \ingroup iterator
 template <typename Container>
-constexpr auto crend(Container const& c) -> decltype(rend(c))
+constexpr auto crend(Container const& c) -> decltype(etl::rend(c))
 {
-    return rend(c);
+    return etl::rend(c);
 }
 
 } // namespace etl
